@@ -214,7 +214,7 @@ def level2_configs(tier):
             cfgs.append(dict(KR=4, KQ=4, NS=2, rev=rev, shapes=SHAPES_THOROUGH, sj="0"))
             cfgs.append(dict(KR=4, KQ=3, NS=3, rev=rev, shapes=SHAPES_QUICK, sj="0"))
             cfgs.append(dict(KR=6, KQ=6, NS=2, rev=rev, shapes=[], sj="0", shapes_per_segment=[["PPPP"], ["PQPP", "PRPP", "PPQP", "PPRP"]]))
-            cfgs.append(dict(KR=6, KQ=6, NS=2, rev=rev, shapes=["PPPP", "PPRRP", "PQPRP", "PRPQP", "PPQQP"], sj="0"))
+            cfgs.append(dict(KR=6, KQ=6, NS=2, rev=rev, shapes=["PPPP", "PPRRP", "PQPRP", "PRPQP", "PPQQP", "PPRP", "PQPP"], sj="0"))
             cfgs.append(dict(KR=5, KQ=5, NS=2, rev=rev, shapes=[], sj="0",
                              shapes_per_segment=[["PQP", "PRP", "PQPP", "PPQP", "PRPP", "PPRP"], ["PP", "PPP", "PQP", "PRP"]]))
         cfgs.append(dict(KR=4, KQ=4, NS=3, rev=False, shapes=["P", "PP", "PQP", "PRP"], sj="0", dp="1/2"))
